@@ -106,12 +106,23 @@ func RunSaga(c *core.Ctx) {
 		}
 		L = math.Max(L, q)
 	}
-	kind := t.Choose(4)
-	reg := t.Choose(3) // identity, tikhonov, l1
+	kind := t.Choose(5)
+	// identity, tikhonov, l1, l2 (norm, not squared), l1 by just-in-time updates
+	reg := t.Pick([]int{3, 3, 2, 1, 1})
+	if reg == 4 {
+		// JitUpdate is implemented for Objective1Sparse only
+		kind = 2
+	}
 	lambda := 0.0
 	if reg != 0 {
 		lambda = float64(t.Range(1, 8)) / 4
 	}
+	if reg == 4 && t.Bool(1, 3) {
+		// just-in-time updates with lambda = 0 are plain SAGA with lazily applied
+		// gradient-average steps: the problem is the strictly convex quadratic
+		lambda = 0
+	}
+	quadratic := reg <= 1 || (reg == 4 && lambda == 0)
 	gamma := 1 / (float64(t.Range(3, 6)) * L)
 	eps := []float64{1e-8, 1e-10, 1e-12}[t.Choose(3)]
 	maxIt := []int{20000, 4000}[t.Choose(2)]
@@ -136,8 +147,8 @@ func RunSaga(c *core.Ctx) {
 			maxIt = t.Range(1, 4)
 		}
 	}
-	kindName := []string{"Objective1Dense", "Objective2Dense", "Objective1Sparse", "Objective2Sparse"}[kind]
-	regName := []string{"none(identity proximal operator)", "tikhonov", "l1"}[reg]
+	kindName := []string{"Objective1Dense", "Objective2Dense", "Objective1Sparse", "Objective2Sparse", "WrapperDense"}[kind]
+	regName := []string{"none(identity proximal operator)", "tikhonov", "l1", "l2-norm", "l1(JitUpdateL1)"}[reg]
 	what := "saga." + kindName
 	c.Logf("%s reg=%s lambda=%v d=%d n=%d gamma=%.6g epsilon=%g cap=%d seed=%d x0=%v fail=%s@%d hookStop=%d", what, regName, lambda, d, n, gamma, eps, maxIt, seed, x0, failKind, failAt, hookStopAt)
 	for i := range A {
@@ -196,6 +207,28 @@ func RunSaga(c *core.Ctx) {
 		f = saga.Objective1Sparse(func(i int, x ad.DenseFloat64Vector) (float64, float64, ad.SparseConstFloat64Vector, error) {
 			r, err := resid(i, x)
 			return 0.5 * r * r, r, sparseRows[i], err
+		})
+	case 4:
+		// the component objectives written with the library's scalars; the
+		// wrapper obtains value and gradient by automatic differentiation
+		f = saga.WrapperDense(func(i int, x ad.Vector, y ad.MagicScalar) error {
+			r, err := resid(i, ad.DenseFloat64Vector(floats(x)))
+			if err != nil {
+				return err
+			}
+			u := ad.NewReal64(0)
+			tmp := ad.NewReal64(0)
+			for j := 0; j < d; j++ {
+				tmp.Mul(x.ConstAt(j), ad.ConstFloat64(A[i][j]))
+				u.Add(u, tmp)
+			}
+			u.Sub(u, ad.ConstFloat64(b[i]))
+			y.Mul(u, u)
+			y.Mul(y, ad.ConstFloat64(0.5))
+			if math.IsNaN(r) {
+				y.Mul(y, ad.ConstFloat64(math.NaN()))
+			}
+			return nil
 		})
 	default:
 		f = saga.Objective2Sparse(func(i int, x ad.DenseFloat64Vector) (float64, ad.SparseConstFloat64Vector, error) {
@@ -263,8 +296,12 @@ func RunSaga(c *core.Ctx) {
 		args = append(args, saga.ProximalOperator{Value: &identityProx{}})
 	case 1:
 		args = append(args, saga.TikhonovRegularization{Value: lambda})
-	default:
+	case 2:
 		args = append(args, saga.L1Regularization{Value: lambda})
+	case 3:
+		args = append(args, saga.L2Regularization{Value: lambda})
+	default:
+		args = append(args, saga.JitUpdate{Value: &saga.JitUpdateL1{Lambda: lambda}})
 	}
 	xstart := ad.NewDenseFloat64Vector(append([]float64{}, x0...))
 	var xr ad.Vector
@@ -341,7 +378,7 @@ func RunSaga(c *core.Ctx) {
 	// so a relative step below eps*gamma bounds the gradient by eps*|x|/n and the
 	// distance to the minimiser by that over mu; factor 1e4 for the stochastic
 	// part (calibration counters below)
-	if !regular && reg != 2 {
+	if !regular && quadratic {
 		c.Count("not-judged:minimiser-on-a-problem-with-few-or-degenerate-components")
 		return
 	}
@@ -363,8 +400,8 @@ func RunSaga(c *core.Ctx) {
 		step = math.Max(step, v)
 	}
 	tolD := 1e6*step*math.Max(xn, 1e-3)/(float64(n)*gamma*mu) + 1e-12
-	switch reg {
-	case 0, 1:
+	switch {
+	case quadratic:
 		M := make([][]float64, d)
 		rhs := make([]float64, d)
 		for j := 0; j < d; j++ {
@@ -382,6 +419,7 @@ func RunSaga(c *core.Ctx) {
 			}
 		}
 		xs := solveSmall(M, rhs)
+		c.Count("judged:minimiser|" + regName)
 		worst := 0.0
 		for j := range x {
 			worst = math.Max(worst, math.Abs(x[j]-xs[j])/tolD*1e6)
@@ -394,11 +432,11 @@ func RunSaga(c *core.Ctx) {
 			}
 		}
 	default:
-		// the l1-regularised problem is not a quadratic: the property promises
-		// the minimiser only for strictly convex quadratics, and the step
-		// criterion can legitimately be met at other points (a coordinate
-		// resting at 0 under a stale gradient)
-		c.Count("not-judged:minimiser-of-the-l1-regularised-problem")
+		// the l1- and l2-norm-regularised problems are not quadratics: the
+		// property promises the minimiser only for strictly convex quadratics,
+		// and the step criterion can legitimately be met at other points (a
+		// coordinate resting at 0 under a stale gradient)
+		c.Count("not-judged:minimiser-of-the-l1-or-l2-norm-regularised-problem")
 
 	}
 }
